@@ -29,6 +29,13 @@ pub fn units(job: &JobDef, tier: Tier) -> usize {
 }
 
 pub fn run_unit(job: &JobDef, job_ix: u32, unit: usize, tier: Tier, deadline: Option<Instant>, marker: &Marker, stats: &mut Stats) {
+    if job.family.starts_with("c10/differential") {
+        let ps = progs(job, tier);
+        if let Some(p) = ps.get(unit) {
+            super::differential::run(p, &job.cfg(), &job.opts(deadline), (job_ix, unit as u32), marker, stats);
+        }
+        return;
+    }
     if job.family.starts_with("c13/") {
         let ps = progs(job, tier);
         if let Some(p) = ps.get(unit) {
@@ -40,6 +47,9 @@ pub fn run_unit(job: &JobDef, job_ix: u32, unit: usize, tier: Tier, deadline: Op
 }
 
 pub fn replay(cfg: &crate::core::Cfg, prog: &serde_json::Value, history: &[serde_json::Value]) -> Result<(Vec<(usize, crate::core::Violation)>, Vec<String>, u64), String> {
+    if history.last().map_or(false, |h| h.get("differential_for_slot").is_some()) {
+        return super::differential::replay(cfg, prog, history);
+    }
     if history.last().map_or(false, |h| h.get("fault_at_invocation_of_last_stabilise").is_some()) {
         return super::fault::replay(cfg, prog, history);
     }
